@@ -28,14 +28,16 @@ LEVELS = {
        "(under the named float-soundness hypothesis) CrossingSign = exact criterion, MaybeCross iff shared endpoint, and the crosser's "
        "outputs equal the stateless function for ALL call histories (invariant on the cached orientation). Partial: float soundness "
        "(triage/stable/tangent tests) is searched against the exact criterion on 8 argument orders and random histories.",
-  note=COMMON_NOTE + "Hypotheses FloatSound and SignLaws are explicit; checked on concrete point sets and exercised on every run."),
+  note=COMMON_NOTE + "SignLaws/RSLaws are discharged for the exact sign on finite points (C03_Exact.lean; the ±0-twin side condition of "
+       "'unit' is shown necessary). FloatSound (error bounds of triage/stable/tangent tests) stays an explicit hypothesis, searched on every run."),
  "C04": dict(
   technique="Lean 4 theorems on an exact containment model (crossing parity, inversion, polygon XOR, path equality under index invariants) + exact oracle vs 15 evaluation paths",
   text="Proof: parity/inversion law at every point, polygon containment = XOR = containsBruteForce, index path / query-object path = brute "
        "force under explicit index invariants I1-I3 and the parity-cocycle hypothesis; vertex models. The invariants are checked "
        "exactly on every generated index (exact rational clipping), and every path of the real code is compared with the exact parity. "
        "Partial: 'cell loops tile the sphere' is geometry, searched exhaustively on levels 1-3 and sampled deeper.",
-  note=COMMON_NOTE + "Assumed geometry: ParityCocycle, locality of edges in padded cells, Jordan-type tiling."),
+  note=COMMON_NOTE + "EqLaws/sign-swap/CrossLaws are discharged for the exact geometry on finite vectors (C04_Exact.lean). "
+       "Assumed geometry: ParityCocycle, locality of edges in padded cells, Jordan-type tiling."),
  "C05": dict(
   technique="Lean 4 theorems on the coverer over an abstract region (level discipline, covering/interior soundness for every pop order) + exact judging of real coverings",
   text="Proof: level discipline, covering superset and interior subset for every configuration and abstract region with one-sidedly safe "
@@ -43,15 +45,15 @@ LEVELS = {
   note=COMMON_NOTE),
  "C06": dict(
   technique="Regenerated accessor arithmetic (translator_c06, rfl ties) + Lean contract theorems for every Shape type and cell location; index queries = brute force under checked invariants",
-  text="Proof: Shape chain contract for all sizes (Loop, Polyline, LaxPolyline, LaxLoop, LaxPolygon, PointVector; Polygon partial), "
-       "LocatePoint/LocateCellID on every sorted disjoint cell list, index queries = brute force under I1-I3; accessor expressions are "
-       "re-translated from the Go source on every run and tied by rfl. Invariants and all queries are judged exactly on generated collections.",
-  note=COMMON_NOTE + "Polygon multi-loop contract and ShapeIndex construction are tied by correspondence only."),
+  text="Proof: Shape chain contract for all sizes (Loop, Polyline, LaxPolyline, LaxLoop, LaxPolygon, PointVector, Polygon with any number of loops = both search paths), "
+       "LocatePoint/LocateCellID on every sorted disjoint cell list, PaddedCell bookkeeping (the two constructors agree; entry/exit vertices chain along the Hilbert curve at every level), index queries = brute force under I1-I3; accessor expressions are "
+       "re-translated from the Go source on every run and tied by rfl (Polygon search loops: by proved equality). Invariants and all queries are judged exactly on generated collections.",
+  note=COMMON_NOTE + "Polygon state construction (initEdgesAndIndex) and ShapeIndex construction are tied by correspondence only."),
  "C07": dict(
   technique="Lean 4 theorems on exact brute-force relations and on loop nesting (all insertion orders) + exact O(n*m) oracle vs index walk",
   text="Proof: nesting depths/pre-order/hole parity for every insertion order; wedge dualities; set-algebra laws at model level. Partial: "
        "the index walk and bounding-rectangle shortcuts are compared with the exact relation on structured loop pairs.",
-  note=COMMON_NOTE),
+  note=COMMON_NOTE + "SgLaws is discharged for the exact geometry on all inputs and the point-inversion law is proved (C07_Exact.lean); the Jordan-type same-side hypotheses of the complement laws and SimpleLoop remain explicit."),
  "C08": dict(
   technique="Lean 4 theorems on result post-processing, initial covering and abstract best-first search + optimized-vs-brute-force oracle over the option grid",
   text="Proof: post-processing, initCovering covers every index cell with <= 6 cells, best-first search returns the k best given true lower "
@@ -67,12 +69,13 @@ LEVELS = {
   technique="Lean 4 theorems on bound composition and the monotone-chain hull over abstract orientation laws + exact membership judge on computed lat/lng",
   text="Proof: composition of per-edge bounds, pole handling logic, convex hull convexity/containment under orientation axioms. Partial: "
        "RectBounder / cap / cell padding constants are searched with extremal probes judged exactly.",
-  note=COMMON_NOTE),
+  note=COMMON_NOTE + "The orientation axioms of the hull are discharged for point sets in general position inside an open half-space (Grassmann-Pluecker, C10_Exact.lean); the degenerate (symbolically perturbed) case is stated, not proved."),
  "C11": dict(
   technique="Lean 4 theorems: Normalize = unique normal form preserving the leaf set; every CellUnion operation = leaf-set operation; minimal tilings (all inputs) + correspondence",
   text="Proof (full): normalize preserves leaves, output normalized, unique and minimal; containment/intersection tests, union, "
        "intersection (incl. fuel), difference, denormalize, leaf counts, range tilings = leaf-set specifications for all inputs. "
-       "Partial: CellIndex and s2intersect.Find are modelled and judged on every run (structure lemmas proved, full correctness not).",
+       "CellIndex (build, range iterator, contents iterator for any StartUnion sequence) and s2intersect.Find are proved correct "
+       "for all inputs within the Add contract (C11_Index.lean) and additionally judged on every run.",
   note=COMMON_NOTE),
  "C12": dict(
   technique="Lean 4 theorems (children = direct construction bit-exactly; id-range containment) on a soft-float Cell model + exact distance judge",
